@@ -54,8 +54,9 @@ class _AddressList(Writeable):
                 # ``address`` raises unless there is exactly one)
                 addresses.extend(header.addresses)
             if addresses:
-                return List([self._parse(address)
-                             for address in addresses])
+                # "(" 1*address ")": nothing between the addresses
+                return List([_Concatenated([self._parse(address)
+                                            for address in addresses])])
         return Nil()
 
     def write(self, writer: WriteStream) -> None:
